@@ -227,6 +227,15 @@ def nframes(t: dict) -> int:
 
 
 # ----------------------------------------------------------------------------- stream generators
+def AddrEndPy(f: bytes, p: int) -> int:
+    """0-based index of the last octet of the address starting at p, -1 if it does not end."""
+    while p < len(f):
+        if f[p] & 1:
+            return p
+        p += 1
+    return -1
+
+
 def damaged_variants(rng: random.Random, f: bytes) -> list[bytes]:
     out = []
     i = rng.randrange(len(f))
@@ -236,6 +245,16 @@ def damaged_variants(rng: random.Random, f: bytes) -> list[bytes]:
     out.append(f[:rng.randrange(1, len(f))])                                      # truncated
     out.append(f + bytes([rng.randrange(256)]))                                   # one octet too long
     out.append(f[:7])                                                             # cut right after a 1+1 address HCS
+    # wrong header check sequence, frame check sequence recomputed: INTACT by the statement of C01 (length field and FCS are right)
+    it_hl = 0
+    d = AddrEndPy(f, 2)
+    s_ = AddrEndPy(f, d + 1) if d >= 0 else -1
+    if s_ >= 0 and len(f) > s_ + 5:
+        g = bytearray(f)
+        g[s_ + 2] ^= 0x10
+        c = _fcs(bytes(g[:-2]))
+        g[-2:] = bytes([c & 0xFF, c >> 8])
+        out.append(bytes(g))
     # wrong length field with recomputed HCS and FCS (is_good_ffc true, length wrong)
     n = len(f) + rng.choice([-1, 1, 2])
     hdr = bytes([0xA0 | (n >> 8) & 7, n & 0xFF, 1, 3, 0x13])
